@@ -160,6 +160,10 @@ def random_mesh(rng, nj=None, ni=None, *, maxn=4, split=0.3, merge=0.35, jitter=
     norphan = int(rng.integers(1, 3)) if ORPHAN_POLICY['on'] and chance(rng, 0.15) else 0
     total = len(used) + norphan
     perm = rng.permutation(total)
+    if norphan and chance(rng, 0.4):
+        # number 0 is where padding (`filled(0)`) and start-index slips end up: often let the orphan be node 0
+        k0 = int(numpy.flatnonzero(perm == 0)[0])
+        perm[k0], perm[len(used)] = perm[len(used)], perm[k0]
     remap = {old: int(perm[k]) for k, old in enumerate(used)}
     x = numpy.empty(total)
     y = numpy.empty(total)
